@@ -445,6 +445,145 @@ theorem hdr_set_ident_get (h : Bytes) (i v : Nat) (hi : i < h.length) :
 
 example : Hdr.e_machine .c64 .msb (Hdr.set_machine .c64 .msb (Hdr.create .c64 .msb 2) 0x1003E) = 0x3E#16 := by decide
 
+/-! ### 2b. construction through the API -/
+
+def shstrtabName : Bytes := [46, 115, 104, 115, 116, 114, 116, 97, 98]     -- ".shstrtab"
+
+theorem shstrtab_utf8 : ".shstrtab".toUTF8.toList = shstrtabName := by decide +kernel
+
+/-- the section-name string table as `create` leaves it -/
+def shstrtab0 (c : Cls) (te : Bool) : SecBuf :=
+  { cls := c, stype := BitVec.ofNat 32 SHT_STRTAB, size := 11,
+    data := some ([0] ++ shstrtabName ++ [0, 0]), dataSize := 12,
+    streamSize := if te then 11 else 0, translatorEmpty := te, fileData := some [], index := 1,
+    name := shstrtabName, nameOff := 1, addrAlign := 1 }
+
+/-- the object `create` produces, in closed form -/
+def createObj (o : Obj) (c : Cls) (e : Enc) : Obj :=
+  { o with cls := c, enc := e, hdr := some (Hdr.set_shstrndx c e (Hdr.create c e (encByte e)) 1),
+           secs := [{ SecBuf.fresh c 0 with translatorEmpty := o.trans.isEmpty }, shstrtab0 c o.trans.isEmpty],
+           segs := [] }
+
+set_option maxRecDepth 20000 in
+theorem create_eq (o : Obj) (c : Cls) (e : Enc) : create o c e = .ok (createObj o c e) := by
+  unfold create createObj sectionsAdd newSection
+  rw [shstrtab_utf8]
+  simp only []
+  generalize o.trans.isEmpty = te
+  cases c <;> cases e <;> cases te <;> rfl
+
+/-- the header `create` writes: identification per specification (magic, class, **the byte order
+    the multi-byte fields are then stored in**, version), `e_version = 1`, the three record sizes,
+    `e_shstrndx = 1`, everything else zero -/
+theorem create_header (c : Cls) (e : Enc) :
+    let h := Hdr.set_shstrndx c e (Hdr.create c e (encByte e)) 1
+    h.length = ehdrSize c ∧ slice h 0 4 = Spec.ELFMAG ∧
+    (Hdr.ident h Spec.EI_CLASS).toNat = (match c with | .c32 => Spec.ELFCLASS32 | .c64 => Spec.ELFCLASS64) ∧
+    (Hdr.ident h Spec.EI_DATA).toNat = (match e with | .lsb => Spec.ELFDATA2LSB | .msb => Spec.ELFDATA2MSB) ∧
+    Hdr.e_version c e h = 1 ∧ (Hdr.e_ehsize c e h).toNat = Spec.ehdrSize c ∧
+    (Hdr.e_phentsize c e h).toNat = Spec.phdrSize c ∧ (Hdr.e_shentsize c e h).toNat = Spec.shdrSize c ∧
+    Hdr.e_shstrndx c e h = 1 ∧ Hdr.e_type c e h = 0 ∧ Hdr.e_machine c e h = 0 ∧ Hdr.e_entry c e h = 0 ∧
+    Hdr.e_flags c e h = 0 ∧ Hdr.e_phoff c e h = 0 ∧ Hdr.e_shoff c e h = 0 ∧ Hdr.e_phnum c e h = 0 ∧
+    Hdr.e_shnum c e h = 0 := by
+  cases c <;> cases e <;> decide
+
+theorem shstrtab0_inv (c : Cls) (te : Bool) :
+    (shstrtab0 c te).Inv ∧ (shstrtab0 c te).content = [0] ++ shstrtabName ++ [0] := by
+  have hr : (shstrtab0 c te).Resident := by
+    cases c <;> cases te <;>
+    exact { notNobits := by decide, pend := (fun h => nomatch h),
+            buf := Or.inr ⟨_, rfl, by decide, by decide⟩, cap := by decide }
+  refine ⟨Or.inl hr, ?_⟩
+  rw [C07.content_resident hr]
+  rfl
+
+/-- **create_inv** : `create c e` always succeeds and leaves: class and byte order as requested, no
+    segments, the header of `create_header` (whose `EI_DATA` byte declares `e`), exactly two sections —
+    the null section (index 0, type `SHT_NULL`, empty, no address) and `.shstrtab` (index 1, type
+    `SHT_STRTAB`, alignment 1, a consistent buffer holding `"\0.shstrtab\0"`, its own name at offset 1)
+    — and `e_shstrndx = 1`. -/
+theorem create_inv (o : Obj) (c : Cls) (e : Enc) :
+    ∃ o' h s0 s1, create o c e = .ok o' ∧ o'.cls = c ∧ o'.enc = e ∧ o'.segs = [] ∧ o'.trans = o.trans ∧
+      o'.hdr = some h ∧ h = Hdr.set_shstrndx c e (Hdr.create c e (encByte e)) 1 ∧
+      (Hdr.e_shstrndx c e h).toNat = 1 ∧ o'.secs = [s0, s1] ∧
+      s0.index = 0 ∧ s0.stype = BitVec.ofNat 32 SHT_NULL ∧ s0.size = 0 ∧ s0.nameOff = 0 ∧ s0.addrSet = false ∧
+      s0.data = none ∧ s0.cls = c ∧
+      s1.index = 1 ∧ s1.stype = BitVec.ofNat 32 SHT_STRTAB ∧ s1.addrAlign = 1 ∧ s1.cls = c ∧
+      s1.name = shstrtabName ∧ s1.nameOff = 1 ∧ s1.addrSet = false ∧ s1.Inv ∧
+      s1.content = [0] ++ shstrtabName ++ [0] ∧ Spec.strAt s1.content s1.nameOff.toNat = some s1.name := by
+  refine ⟨createObj o c e, _, _, _, create_eq o c e, rfl, rfl, rfl, rfl, rfl, rfl, ?_, rfl,
+    rfl, rfl, rfl, rfl, rfl, rfl, rfl, rfl, rfl, rfl, rfl, rfl, rfl, rfl, (shstrtab0_inv c _).1, (shstrtab0_inv c _).2, ?_⟩
+  · have := (create_header c e).2.2.2.2.2.2.2.2.1
+    rw [this]; rfl
+  · rw [(shstrtab0_inv c _).2]
+    show Spec.strAt ([0] ++ shstrtabName ++ [0]) 1 = some shstrtabName
+    decide
+
+theorem cstr_idem (s : Bytes) : Spec.cstr (Spec.cstr s) = Spec.cstr s := by
+  induction s with
+  | nil => rfl
+  | cons x xs ih =>
+    by_cases hx : x = 0
+    · subst hx; rfl
+    · rw [Spec.cstr_cons, if_neg hx, Spec.cstr_cons, if_neg hx, ih]
+
+theorem addStr_cstr (t s : Bytes) : Spec.addStr t (Spec.cstr s) = Spec.addStr t s := by
+  unfold Spec.addStr; rw [cstr_idem]
+
+/-- **sectionsAdd_name** : `sections.add(name)` on an object whose section-name string table `st`
+    (section `e_shstrndx`, an existing section) is consistent (`SecBuf.Inv`) and stays below 4 GiB:
+    succeeds; appends exactly one fresh section `nb` (index = old count mod 2^16, the given name, type
+    0, no data, no address); the string table becomes the reference addition of the name's C string
+    (`Spec.addStr`, C08) and keeps all its header fields (`DataFrame`); `nb.nameOff` points at the
+    name's C string inside the new table; every string that could be read from the old table reads
+    the same from the new one (so all earlier sections' name offsets stay valid); every other
+    section is untouched. -/
+theorem sectionsAdd_name (o : Obj) (name : Bytes) (h : Bytes) (st : SecBuf) (hh : o.hdr = some h)
+    (hst : o.secs[(Hdr.e_shstrndx o.cls o.enc h).toNat]? = some st) (hI : st.Inv)
+    (hb : (Spec.addStr st.content name).1.length < 4294967296) :
+    ∃ o' st' nb, sectionsAdd o name = .ok o' ∧ o' = { o with secs := o'.secs } ∧
+      o'.secs.length = o.secs.length + 1 ∧
+      o'.secs[(Hdr.e_shstrndx o.cls o.enc h).toNat]? = some st' ∧ st'.Inv ∧ DataFrame st st' ∧
+      st'.content = (Spec.addStr st.content name).1 ∧
+      o'.secs[o.secs.length]? = some nb ∧
+      nb = { newSection o with name := name, nameOff := nb.nameOff } ∧
+      Spec.strAt st'.content nb.nameOff.toNat = some (Spec.cstr name) ∧
+      (∀ k s, Spec.strAt st.content k = some s → Spec.strAt st'.content k = some s) ∧
+      (∀ i, i < o.secs.length → i ≠ (Hdr.e_shstrndx o.cls o.enc h).toNat → o'.secs[i]? = o.secs[i]?) := by
+  have hlt : (Hdr.e_shstrndx o.cls o.enc h).toNat < o.secs.length := by
+    rcases Nat.lt_or_ge (Hdr.e_shstrndx o.cls o.enc h).toNat o.secs.length with hl | hl
+    · exact hl
+    · rw [List.getElem?_eq_none hl] at hst; cases hst
+  obtain ⟨st', pos, ea, hI', fr, ec, ep⟩ := addString_refines st hI (Spec.cstr name) (by rw [addStr_cstr]; exact hb)
+  rw [addStr_cstr] at ec ep
+  unfold sectionsAdd
+  simp only [hh, Option.getD_some]
+  generalize hk : (Hdr.e_shstrndx o.cls o.enc h).toNat = k at hst hlt ⊢
+  have h1 : (o.secs ++ [{ newSection o with name := name }])[k]? = some st := by
+    rw [List.getElem?_append_left hlt]; exact hst
+  rw [h1]
+  simp only
+  have e1 : List.takeWhile (fun x => decide (x ≠ 0)) name = Spec.cstr name := takeWhile_ne_eq_cstr name
+  rw [e1, ea]
+  simp only [bind, Except.bind, pure, Except.pure, List.length_set, List.length_append, List.length_cons,
+    List.length_nil, Nat.zero_add, Nat.add_sub_cancel]
+  have h2 : ((o.secs ++ [{ newSection o with name := name }]).set k st')[o.secs.length]? =
+      some { newSection o with name := name } := by
+    rw [List.getElem?_set_ne (by omega), List.getElem?_append_right (Nat.le_refl _)]
+    simp
+  rw [h2]
+  simp only
+  refine ⟨_, st', { newSection o with name := name, nameOff := pos }, rfl, rfl, ?_, ?_, hI', fr, ec, ?_, rfl, ?_, ?_, ?_⟩
+  · simp
+  · rw [List.getElem?_set_ne (by omega), List.getElem?_set_self (by simp; omega)]
+  · rw [List.getElem?_set_self (by simp)]
+  · simp only
+    rw [ec, ep, Spec.addStr_get]
+  · intro k' s hs
+    rw [ec]; exact Spec.addStr_stable _ _ _ _ hs
+  · intro i hi hne
+    rw [List.getElem?_set_ne (by omega), List.getElem?_set_ne (by omega), List.getElem?_append_left hi]
+
 /-! ### 3. the stream: what `adjust_stream_size` + `write` leave in the file -/
 
 /-- **saveSection_writes** : on a stream that has not failed and has no byte budget,
